@@ -11,6 +11,7 @@ import Holpy.C12.Users
 import Holpy.C12.UsersIso
 import Holpy.C12.UsersSpec
 import Holpy.C12.UsersHist
+import Holpy.C12.UsersMaster
 /-
 C12 — property theorems (statements live here, helper lemmas in Proofs / Exec / Exec2 / Complete / Reread / Edits / Hist).
 
@@ -499,9 +500,10 @@ theorem users_isolated (W : World) (fault : Option Item) (fuel : Nat) (s : State
     `u` between an edit of the imports of one of u's files and `load_metadata(u)`) — nothing is asked of what the other
     users do — then a `load_theory(T, limit, username=u)` that returns normally leaves the specification evaluated on
     u's CURRENT files (lazy imports and the master loads they trigger included).
-    PARTIAL: (1) `u` = master is not covered when other users are active (master's library and cache are also
-    changed by the other users' lazy imports; its invariant is not threaded through their loads), (2) the direction
-    "the specification succeeds ⇒ the load does not raise" is proved for one user only (`load_eq_spec`). -/
+    PARTIAL: (1) `u` = master is not covered HERE (it is by `load_returns_spec_users` below, which subsumes this
+    theorem), (2) the direction "the specification succeeds ⇒ the load does not raise" is proved for one user only
+    (`load_eq_spec`): with several users it also needs master's library to be healthy (a lazily imported module loads a
+    master theory), and the no-failure lemmas of Complete.lean are not threaded through two libraries. -/
 theorem load_eq_spec_users_partial (W : World) (s0 : State) (hfocus : s0.user = 0) (u : Nat) (hu : u ≠ 0)
     (hcache : (s0.focus u).cache = none) (h : List OpU) (fuel : Nat)
     (hok : okHistU W fuel u h s0 (used0 (s0.focus u).files) false) (f : Nat) (n : Name) (lim : Limit) :
@@ -524,6 +526,58 @@ example :
     ∧ specLoad lzWorld ((runU lzWorld 50 h uState).focus 1).lib 5 2 .none = .ok [120] := by
   refine ⟨?_, by decide, by rfl⟩
   simp only [okHistU]
+  decide
+
+/-- EVERY user, MASTER INCLUDED, any interleaving.  Start a process whose caches are empty, run ANY history of loads
+    (any user, any limit, interrupted or not), module imports, touches, edits and metadata reloads of ANY users.  If the
+    operations that reach u's own library satisfy the usual hypothesis (`okHistA`: fresh timestamps for u's files; no load
+    reaching u's library between an edit of the imports of one of u's files and `load_metadata(u)` — for a non-master
+    user only its own loads reach it, for master also every other user's load and every module import do, through the
+    `basic.load_theory` calls of lazily imported modules), then a `load_theory(T, limit, username=u)` that returns
+    normally leaves in `theory.thy` exactly the specification evaluated on u's CURRENT files — whatever the other users
+    loaded, edited or broke in the same process.  (Soundness direction, like `load_returns_spec`; the direction "no
+    spurious failure" for several users is NOT proved.) -/
+theorem load_returns_spec_users (W : World) (s0 : State) (hfocus : s0.user = 0) (u : Nat)
+    (hcache : (s0.focus u).cache = none) (h : List OpU) (fuel : Nat)
+    (hok : okHistA W fuel u h s0 (used0 (s0.focus u).files) false) (f : Nat) (n : Name) (lim : Limit) :
+    let s := runU W fuel h s0
+    let r := execU W none (f + 1) (.load u n lim) s
+    r.1 = none → ∀ k, specLoad W (s.focus u).lib k n lim ≠ .error .fuel →
+      specLoad W (s.focus u).lib k n lim = .ok (r.2.thy.getD []) := by
+  intro s r hr k hk
+  by_cases hu : u = 0
+  · subst hu
+    have hself : s0.focus 0 = s0 := focus_self s0 0 hfocus.symm
+    rw [hself] at hcache hok
+    have hj0 : J0 W s0 (used0 s0.files) false := by
+      refine ⟨hfocus, fun _ => ⟨filesOk_lib _, ?_, fun k => by simp [used0]⟩, fun k => by simp [used0]⟩
+      intro T hT; rw [hcache] at hT; cases hT
+    obtain ⟨U', hj⟩ := runU_inv0 W fuel h s0 _ false hj0 hok
+    have hs : s.focus 0 = s := focus_self s 0 hj.1.symm
+    exact user_resolution_spec W (s.focus 0).lib U' s 0 (by rw [hs]; exact hj.2.1 rfl) f n lim hr k hk
+  · exact load_eq_spec_users_partial W s0 hfocus u hu hcache h fuel (okHistA_okHistU W fuel u hu h s0 _ false hok) f n lim hr k hk
+
+/-- master is judged; user 1's load of theory 2 lazily imports module 7, whose body loads theory 1 ON MASTER (so user
+    1's load fills master's cache); master's theory 1 is then edited, user 2's load is interrupted, the imports of
+    master's theory 2 are edited and the metadata re-read; user 1 loads again.  Master's load is the specification. -/
+example :
+    let h : List OpU := [.load 1 2 .none none, .edit 0 1 [] [10, 11] 9, .load 2 2 .none (some 210), .touch 1 1 3,
+                         .load 0 2 .none none, .edit 0 2 [] [21] 8, .reloadMeta 0, .load 1 2 .none (some 120), .imp 7]
+    okHistA lzWorld 50 0 h uState (used0 (uState.focus 0).files) false
+    ∧ ((runU lzWorld 50 [.load 1 2 .none none] uState).entry 1).isSome = true
+    ∧ (execU lzWorld none 50 (.load 0 2 .none) (runU lzWorld 50 (h.take 4) uState)).2.thy = some [10, 11, 20]
+    ∧ (execU lzWorld none 50 (.load 0 2 .none) (runU lzWorld 50 h uState)).2.thy = some [21]
+    ∧ specLoad lzWorld ((runU lzWorld 50 h uState).focus 0).lib 5 2 .none = .ok [21] := by
+  refine ⟨?_, by decide, by decide, by decide, by rfl⟩
+  simp only [okHistA]
+  decide
+
+/-- what the hypothesis excludes for master: user 1's load between an edit of master's imports and load_metadata runs a
+    master load (through module 7) on stale metadata — the known finding reached from another user's load -/
+example :
+    ¬ okHistA lzWorld 50 0 [.load 0 2 .none none, .edit 0 1 [2] [10] 9, .load 1 2 .none none, .reloadMeta 0] uState
+        (used0 (uState.focus 0).files) false := by
+  simp only [okHistA]
   decide
 
 /-- three users: master, 1 and 2 (user 2 has item 220 in theory 2) -/
